@@ -111,7 +111,7 @@ func chooseRealBcast(c *kernel.Ctx, cl *cluster.Cluster, pl *plan) {
 }
 
 // installRealBcast wires the mode into the cluster (before any node starts).
-func installRealBcast(c *kernel.Ctx, cl *cluster.Cluster, pl *plan, firstSlot uint64, nSlots int, beaconErrs bool) {
+func installRealBcast(c *kernel.Ctx, cl *cluster.Cluster, pl *plan, firstSlot uint64, nSlots int, beaconErrs bool, isByz []bool) {
 	anyLegacy := false
 	for _, l := range pl.legacy {
 		anyLegacy = anyLegacy || l
@@ -134,9 +134,15 @@ func installRealBcast(c *kernel.Ctx, cl *cluster.Cluster, pl *plan, firstSlot ui
 	if !pl.realBcast {
 		return
 	}
-	s := &subOracle{c: c, cl: cl, firstSlot: firstSlot, nSlots: nSlots, beaconErrs: beaconErrs}
+	s := &subOracle{c: c, cl: cl, firstSlot: firstSlot, nSlots: nSlots, beaconErrs: beaconErrs, isByz: isByz, thresholdSets: map[string]attSet{}}
 	cl.NewBroadcaster = func(n *cluster.Node, eth2Cl eth2wrap.Client) core.Broadcaster {
 		sb := &submitBeacon{Client: eth2Cl, s: s, n: n}
+		// registered before core.Wire subscribes SigAgg: the composition of every attester threshold set is known
+		// when its aggregate reaches the broadcaster (used to word a violation, never to decide one)
+		n.ParSigDB.SubscribeThreshold(func(_ context.Context, duty core.Duty, set map[core.PubKey][]core.ParSignedData) error {
+			s.noteThresholdSet(n.Idx, duty, set)
+			return nil
+		})
 		real, err := bcast.New(n.Ctx, sb)
 		if err != nil {
 			panic(err)
@@ -358,8 +364,54 @@ type subOracle struct {
 	nSlots     int
 	beaconErrs bool
 
-	mu    sync.Mutex
-	calls map[string]int // injected endpoint failures per node and endpoint
+	isByz      []bool
+
+	mu            sync.Mutex
+	calls         map[string]int    // injected endpoint failures per node and endpoint
+	thresholdSets map[string]attSet // "<node>/<duty>/<pubkey>": the latest attester threshold set ParSigDB handed to SigAgg
+}
+
+// attSet is the composition of an attester threshold set in terms of the unsigned validator index of its partials.
+type attSet struct {
+	text      string // "share 2: 9999, share 1: none, share 3: 100" in the set's order
+	honestNil int    // partials of honest nodes without a validator index (old-release nodes)
+	honestIdx map[eth2p0.ValidatorIndex]int
+}
+
+func (s *subOracle) noteThresholdSet(node int, duty core.Duty, set map[core.PubKey][]core.ParSignedData) {
+	if duty.Type != core.DutyAttester {
+		return
+	}
+	for pk, sigs := range set {
+		as := attSet{honestIdx: map[eth2p0.ValidatorIndex]int{}}
+		for k, ps := range sigs {
+			att, ok := ps.SignedData.(core.VersionedAttestation)
+			if !ok {
+				continue
+			}
+			honest := ps.ShareIdx >= 1 && ps.ShareIdx <= len(s.isByz) && !s.isByz[ps.ShareIdx-1]
+			idx := "none"
+			switch {
+			case att.ValidatorIndex != nil:
+				idx = fmt.Sprint(*att.ValidatorIndex)
+				if honest {
+					as.honestIdx[*att.ValidatorIndex]++
+				}
+			case honest:
+				as.honestNil++
+			}
+			if k > 0 {
+				as.text += ", "
+			}
+			as.text += fmt.Sprintf("share %d: %s", ps.ShareIdx, idx)
+			if !honest {
+				as.text += " (Byzantine node)"
+			}
+		}
+		s.mu.Lock()
+		s.thresholdSets[fmt.Sprintf("%d/%s/%s", node, duty, pk)] = as
+		s.mu.Unlock()
+	}
 }
 
 func (s *subOracle) valByIndex(i eth2p0.ValidatorIndex) *cluster.Validator {
@@ -694,10 +746,22 @@ func (s *subOracle) onAttestation(node int, call *bcastCall, a *eth2spec.Version
 		if signer != nil && signer != val {
 			// the beacon node verifies a SingleAttestation under the key of its attester_index
 			sigID := "electra-attestation-validator-index-set-by-the-broadcaster-names-another-validator-than-the-signer"
+			setText := ""
 			if entry.valIdx != nil && *entry.valIdx == *a.ValidatorIndex {
+				// the aggregate already carried it: SigAgg took the object from a partial with this index
 				sigID = "electra-attestation-aggregated-with-a-foreign-validator-index-handed-to-the-beacon-node"
+				s.mu.Lock()
+				as, ok := s.thresholdSets[fmt.Sprintf("%d/%s/%s", node, call.duty, entry.pk)]
+				s.mu.Unlock()
+				if ok {
+					setText = "; partial signatures aggregated (validator index each carried): " + as.text
+					if as.honestNil > 0 {
+						// honest partials of old-release nodes carry no index: the foreign one had no or fewer competitors
+						sigID += "-while-honest-partials-carry-none"
+					}
+				}
 			}
-			c.Violate("C01", "submitted-invalid-group-signature", sigID, "node %d handed %s to its beacon node: the signature is validator %d's group signature over this data, but the object names validator index %d (cluster validator: %v), under whose key the beacon node verifies it", node, what, signer.Index, *a.ValidatorIndex, val != nil)
+			c.Violate("C01", "submitted-invalid-group-signature", sigID, "node %d handed %s to its beacon node: the signature is validator %d's group signature over this data, but the object names validator index %d (cluster validator: %v), under whose key the beacon node verifies it%s", node, what, signer.Index, *a.ValidatorIndex, val != nil, setText)
 			return
 		}
 		if val == nil {
